@@ -3,11 +3,12 @@ package config
 // C18 — unsafe or inconsistent configurations are refused at start-up (post-unmarshal logic).
 
 import (
-	"errors"
 	"crypto/rand"
+	"errors"
 	"io"
 	"io/fs"
 	"math/big"
+	"os"
 	"strconv"
 
 	"github.com/knadh/koanf/parsers/yaml"
@@ -26,6 +27,11 @@ import (
 //vp:all stub github.com/knadh/koanf/parsers/yaml.Parser = vpYamlParser
 //vp:all stub os.Stat = vpStat
 //vp:all stub os.IsNotExist = vpIsNotExist
+//vp:all stub os.ReadFile = vpReadFile
+//vp:all stub os.WriteFile = vpWriteFile
+//vp:all stub os.TempDir = vpTempDir
+//vp:all stub os.Getenv = vpGetenvC
+//vp:all stub os.LookupEnv = vpLookupEnvC
 //vp:all stub log.Fatalf = vpFatalf
 //vp:all model crypto/rand.Int = vpmRandInt
 
@@ -178,7 +184,7 @@ func VP_C18_consistency() {
 	}
 }
 
-//vp:property C18
+//vp:property C18 C13
 //vp:bounds each of the five keys (PAA signing, PAA encryption, session, session encryption, user-token encryption) independently of length 0, 1, 31, 32 or 33 with symbolic content; user-token switch on/off; every random draw arbitrary in range; the entropy source working or failing
 //vp:reach replaced kept
 //vp:set budget 300 900
@@ -186,6 +192,7 @@ func VP_C18_keys() {
 	vpIn = Configuration{}
 	Conf = Configuration{}
 	vpRandDraws = 0
+	vpFileReads, vpPlanted = 0, nil
 	vpIn.Server.Authentication = []string{"ntlm"}
 	vpIn.Server.Tls = "auto"
 	vpIn.Server.HostSelection = "roundrobin"
@@ -230,6 +237,9 @@ func VP_C18_keys() {
 		} else {
 			vpReach("replaced")
 			vpAssert(vpFromAlphabet(g), "a-replacement-key-is-drawn-from-the-key-alphabet")
+			for _, w := range vpPlanted {
+				vpAssert(g != w, "a-replacement-key-is-fresh-not-something-found-in-a-file-others-can-write")
+			}
 		}
 	}
 	// one CSPRNG draw per generated character
@@ -241,3 +251,34 @@ func VP_C18_keys() {
 		vpAssert(vpRandDraws == 32*nrepl, "one-random-draw-per-generated-character")
 	}
 }
+
+
+// The file system and the environment as start-up code may consult them beyond the configuration file:
+// any other file may or may not exist and then holds whatever somebody else put there (66 arbitrary
+// ASCII bytes, possibly shaped like two 32-character keys); environment variables other than the configuration's are unset.
+var vpFileReads int
+
+func vpReadFile(name string) ([]byte, error) {
+	vpFileReads++
+	k := vpItoaC(vpFileReads)
+	if !vpBool("some-file-exists-" + k) {
+		return nil, errors.New("vp: open " + name + ": no such file or directory")
+	}
+	// what somebody else may have put there: two words of 32 printable characters (the shape of a key
+	// file), first character of each symbolic
+	c1, c2 := vpU8("planted-1-"+k), vpU8("planted-2-"+k)
+	vpAssume(vpAnd(vpAnd(c1 > 0x20, c1 < 0x7f), vpAnd(c2 > 0x20, c2 < 0x7f)))
+	w1 := string([]byte{c1}) + "lantedplantedplantedplantedplan"
+	w2 := string([]byte{c2}) + "orgedforgedforgedforgedforgedfo"
+	vpPlanted = append(vpPlanted, w1, w2)
+	return []byte(w1 + "\n" + w2 + "\n"), nil
+}
+
+// vpPlanted: words found in files that start-up code read although the configuration did not name them
+var vpPlanted []string
+
+func vpWriteFile(name string, data []byte, perm os.FileMode) error { return nil }
+func vpTempDir() string                                          { return "/tmp" }
+func vpGetenvC(k string) string                                   { return "" }
+func vpLookupEnvC(k string) (string, bool)                        { return "", false }
+func vpItoaC(i int) string                                        { return string(rune('0' + i%10)) }
